@@ -611,16 +611,16 @@ func init() {
 	// ---------------------------------------------------------------- C22
 	register(&checkSpec{
 		ID:   "C22",
-		Rule: "trees built programmatically without positions and without ParenExpr nodes from 12 shape families (binary operators nested left, right, on both sides and three deep; unary over binary; unary operands of binary operators; unary over unary; pointer indirection; selector, index, call, slice, type assertion and error-wrap on a binary or unary operand; error-wrap defaults; lambda bodies; command-style call whose first argument needs parentheses; range expression operands); every binary operator is a token value the solver enumerates over everything the real Token.Precedence() accepts, every unary operator over {+ - ! ^ & <-}; the real printer prints the tree, the real parser parses the text, and the parsed tree without its ParenExpr nodes must have the signature of the original (generated from the current ast package)",
+		Rule: "trees built programmatically without positions and without ParenExpr nodes from 15 shape families (error-wrap expressions with and without default as operands of selector, call, index, error-wrap and slice positions; lambdas as operands and callees; command-style calls in expression position and with arguments that start with a unary operator [open known finding]; binary operators nested left, right, on both sides and three deep; unary over binary; unary operands of binary operators; unary over unary; pointer indirection; selector, index, call, slice, type assertion and error-wrap on a binary or unary operand; error-wrap defaults; lambda bodies; command-style call whose first argument needs parentheses; range expression operands); every binary operator is a token value the solver enumerates over everything the real Token.Precedence() accepts, every unary operator over {+ - ! ^ & <-}; the real printer prints the tree, the real parser parses the text, and the parsed tree without its ParenExpr nodes must have the signature of the original (generated from the current ast package)",
 		Assumptions: []string{
 			"bound: the listed shape families (depth <= 3, identifiers as leaves); statements other than expression, assignment and for-in are not synthesized",
 			"the token values are solver-enumerated selectors (as in C33): the content of the check is the family of operator combinations, decided per combination by executing the real printer and parser",
 		},
 		Harnesses: []harnessSpec{
 			{Name: "VxC22", Pkg: "github.com/goplus/xgo/printer", Files: []string{"c22/c22.go", "gen:astkinds:ast"},
-				Quick: map[string]int{}, Variants: func() []map[string]int {
+				Quick: map[string]int{"KF_CMDSTYLE": 0}, Variants: func() []map[string]int {
 					var v []map[string]int
-					for sh := 0; sh <= 11; sh++ {
+					for sh := 0; sh <= 14; sh++ {
 						v = append(v, map[string]int{"S": sh})
 					}
 					return v
